@@ -418,7 +418,7 @@ CHECKS = {
         rule="TestC14: non-trivial = replacements decided by BOTH tie-break levels and >=1 momentum confirming other blocks; "
              "Order/Schedule cases are non-trivial when they reach their comparison; Limit when >100 blocks are pooled",
         assumptions=HIST_ASSUME,
-        jobs=[dict(test="TestC14", quick=T(4, 25, 60), thorough=T(8, 200, 100, 3000)),
+        jobs=[dict(test="TestC14", quick=T(4, 25, 60), thorough=T(8, 120, 100, 3000)),
               dict(test="TestC14Limit", quick=T(1, 6), thorough=T(2, 80, 0, 3000)),
               dict(test="TestC14Order", quick=T(1, 60), thorough=T(2, 1500, 0, 3000)),
               dict(test="TestC14Schedule", quick=T(2, 40), thorough=T(4, 250, 0, 3000)),
